@@ -143,7 +143,7 @@ Definition steps (w : wstate) (l : list wev) : option wstate := wrun l w.
 Definition settle (w : wstate) : option wstate :=
   match w_rpc w with
   | RIdle => Some w
-  | RConfirm _ _ _ => wstep w ERAddActive
+  | RConfirm _ _ _ _ => wstep w ERAddActive
   | RDeliver _ _ => wstep w ERDeliver
   | RNotify s _ _ =>
       if s_cancel (w_sub w s) then wstep w ERNotifyDrop else wstep w ERNotifySend
